@@ -103,6 +103,9 @@ func (m *InputRequestMap) UnmarshalJSON(data []byte) error {
 	}
 	result := make(InputRequestMap, len(rawMap))
 	for k, raw := range rawMap {
+		if raw == nil {
+			return fmt.Errorf("InputRequest %q is null", k)
+		}
 		switch raw.Method {
 		case methodElicit:
 			var p ElicitParams
